@@ -420,7 +420,7 @@ def build(term, ctx, path="r", batch=None):
         dense = KFUNCS[fn](x1, x2, **params)
         bs = torch.broadcast_shapes(dense.shape[:-2], batch, pb)
         return Built(op, dense.expand(*bs, *dense.shape[-2:]), term, psd=bool(kw.get("sym")) and fn in ("rbf", "linear", "multi"),
-                     pd=bool(kw.get("sym")) and fn == "rbf")
+                     pd=False)  # RBF Gram matrices on the integer grid are too ill-conditioned to count as "comfortably PD"
     if head == "KeOps":
         n1, n2, d = kw["n"], kw.get("m", kw["n"]), kw.get("d", 2)
         x1 = leaf(ctx, path + ".x1", "int", (n1, d), batch)
